@@ -6,6 +6,9 @@ import time
 VERIF = os.path.dirname(os.path.dirname(os.path.abspath(__file__)))
 
 
+LINE_MAPS = {}      # relpath -> {line in the normalised module: line in the real file} (sa/loader.py, sa/normalise.py)
+
+
 class Finding(object):
     def __init__(self, prop, clause, kind, file, func, line, construct, message, witness=None, entry=None, exit=None):
         self.prop = prop
@@ -13,7 +16,7 @@ class Finding(object):
         self.kind = kind
         self.file = file
         self.func = func
-        self.line = line
+        self.line = LINE_MAPS.get(file, {}).get(line, line) if file in LINE_MAPS else line
         self.construct = ' '.join((construct or '').split())
         self.message = message
         self.witness = witness
